@@ -207,6 +207,45 @@ function mkCb(name, recv) {
   throw new Error("unknown callback " + name);
 }
 var CBMETHODS = {map: 1, filter: 1, forEach: 1, some: 1, every: 1, find: 1, findIndex: 1, findLast: 1, findLastIndex: 1};
+var LASTRES;
+// checkLastResult: an array returned by the last method call must behave like an array with the same own elements
+// built element by element with default attributes (whatever bookkeeping the producing fast path left behind must not show). Returns ""
+// or a description of the first difference.
+function checkLastResult() {
+  var R = LASTRES; LASTRES = undefined;
+  if (R === undefined || R.length > 5000 || Object.getPrototypeOf(R) !== Array.prototype) return "";
+  var T = []; T.length = R.length;
+  var ks = Object.keys(R);
+  for (var i = 0; i < ks.length; i++) { var dsc = Object.getOwnPropertyDescriptor(R, ks[i]); if (!("value" in dsc) || !dsc.writable || !dsc.configurable || !dsc.enumerable) return ""; O_dp(T, ks[i], {value: dsc.value, writable: true, enumerable: true, configurable: true}); }
+  var obs = [
+    ["includes(undefined)", function(a) { return a.includes(undefined); }],
+    ["indexOf(undefined)", function(a) { return a.indexOf(undefined); }],
+    ["lastIndexOf(undefined)", function(a) { return a.lastIndexOf(undefined); }],
+    ["toReversed", function(a) { return ra(a.toReversed()); }],
+    ["with(0,9)", function(a) { return a.length ? ra(a.with(0, 9)) : ""; }],
+    ["toSpliced(0,0)", function(a) { return ra(a.toSpliced(0, 0)); }],
+    ["concat([9])", function(a) { return ra(a.concat([9])); }],
+    ["slice()", function(a) { return ra(a.slice()); }],
+    ["flat()", function(a) { return ra(a.flat()); }],
+    ["for-in", function(a) { var q = []; for (var k in a) push(q, k); return q.join(); }],
+    ["keys", function(a) { return Object.keys(a).join(); }],
+    ["JSON", function(a) { try { return JSON.stringify(a); } catch (e) { return "throws"; } }],
+    ["findLast", function(a) { return dv(a.findLast(function() { return true; })); }],
+    ["entries", function(a) { var q = []; for (var e of a.entries()) push(q, e[0] + ":" + dv(e[1])); return q.join(); }],
+    ["map", function(a) { return ra(a.map(function(x) { return x; })); }],
+    ["filter", function(a) { return ra(a.filter(function() { return true; })); }],
+    ["reduce", function(a) { return a.reduce(function(n) { return n + 1; }, 0); }],
+    ["push/pop", function(a) { var c = a.slice(); c.push(1); c.pop(); return ra(c); }],
+    ["copy.splice(0)", function(a) { var c = a.slice(); return ra(c.splice(0)); }]
+  ];
+  for (var j = 0; j < obs.length; j++) {
+    var x, y;
+    try { x = String(obs[j][1](R)); } catch (e1) { x = "throw:" + e1; }
+    try { y = String(obs[j][1](T)); } catch (e2) { y = "throw:" + e2; }
+    if (x !== y) return obs[j][0] + ": the returned array gives " + x + ", an array with the same elements built one by one gives " + y + " (result " + ra(R) + ")";
+  }
+  return "";
+}
 function doMethodS(s) {
   var m = JSON.parse(s);
   try {
@@ -217,6 +256,7 @@ function doMethodS(s) {
     var f = Array.prototype[m.name];
     if (typeof f !== "function") return "unsupported";
     var r = f.apply(o, args);
+    LASTRES = (Array.isArray(r) && r !== o) ? r : undefined;
     if (r === o) return dv(o);
     return ra(r);
   } catch (e) {
